@@ -4,7 +4,7 @@ import numpy as np, pandas as pd
 from core import Result
 import proto, gen, implutil
 
-THEOREMS = ['Eff.C15_sound', 'Eff.C15_static', 'Eff.C15_frame', 'Eff.C15_summaries', 'Eff.C15_frame_full', 'Eff.C15_sound_full', 'Eff.C15_translated_static', 'Eff.C15_translated_frame']
+THEOREMS = ['Eff.C15_sound', 'Eff.C15_static', 'Eff.C15_frame', 'Eff.C15_summaries', 'Eff.C15_frame_full', 'Eff.C15_sound_full', 'Eff.C15_translated_static', 'Eff.C15_translated_frame', 'Eff.C15_no_module_state']
 RULE = ("random sequences (length 3..8) of public API calls that SHARE their argument objects (one signal array, one set of option dictionaries incl. nested dicts, "
         "one cycle table per centring): compute_features (both burst methods, both centrings), compute_shape_features, compute_cyclepoints, compute_burst_features, the four "
         "burst-feature functions, find_extrema / find_zerox, compute_features_2d / 3d (shared dict, per-row lists, aliased lists, axis 0 / None / (0,1)), recompute_edges, "
